@@ -69,6 +69,11 @@ pub fn run(lane: &str, a: &Args, acc: &mut Acc) {
             vs_ = probe(&run, &mut crng, acc);
             found_at = run.trace.len();
         }
+        if lane == "c17" && vs_.is_empty() && h % 3 == 1 {
+            deep_index(&mut run);
+            vs_ = probe(&run, &mut crng, acc);
+            found_at = run.trace.len();
+        }
         let mut g = Gen::new(hseed ^ 0x5a5a, profile_for(prop, &mut crng));
         let mut k = 0;
         while vs_.is_empty() && k < steps {
@@ -126,6 +131,37 @@ pub fn replay(lane: &str, case: &Value) -> Result<Vec<(String, String)>, String>
         }
     }
     Ok(out.into_iter().map(|e| (prop.to_string(), e)).collect())
+}
+
+/// two users leave open (unwithdrawn) requests in a dozen consecutive batches
+fn deep_index(run: &mut Run) {
+    let sc = run.sc.clone();
+    let users = [sc.users[0].clone(), sc.users[1].clone()];
+    if run.obs.stopped {
+        let (n, l, r) = (run.obs.n, run.obs.l, run.obs.rewards);
+        run.step(sc.resume(n, l, r));
+    }
+    for u in &users {
+        if run.sc.w.bal(u, &sc.t) < 100 {
+            let amt = run.obs.min_stake().max(1_000_000).min(1_000_000_000_000_000_000_000_000);
+            run.step(Op::BankMint { addr: u.clone(), denom: sc.s.clone(), amount: amt });
+            run.step(sc.stake(u, amt, None, None, None));
+        }
+    }
+    for round in 0..13u64 {
+        for u in &users {
+            if run.sc.w.bal(u, &sc.t) > 0 {
+                run.step(sc.unstake(u, 1 + (round as u128 % 2)));
+            }
+        }
+        let due = run.obs.pending.next_time_s;
+        let now = run.sc.w.now_s();
+        if due > now {
+            run.step(Op::Advance { secs: due - now });
+        }
+        run.step(sc.submit(&users[0]));
+    }
+    run.model.count("c17:deep_index_scenario");
 }
 
 /// admin -> new admin (7 days later), tracked in run.sc.admin
